@@ -18,6 +18,7 @@ PROP = {
         "quick": [B("stable"), B("nightly", 0.25, False)],
         "thorough": [B("stable"), B("fma", 0.5), B("nightly", 0.5, False)],
     },
+    "volume": {"quick": 4},
     "technique": "property-based testing: constructed geometric generators (near-parallel / anti-parallel / orthogonal / cancellation pairs, representability-boundary "
                  "vectors, total-internal-reflection boundary) against an f64 (f32 types) / double-double (f64 types) evaluation of the mathematical expression with "
                  "derived forward-error bounds, in the SSE2, scalar-math, libm, nightly core-simd and (+fma,+avx2) builds",
